@@ -510,7 +510,19 @@ func (br *bRun) judge(replay map[string]any, finalNext int64, closeOp *cOp) bool
 			return report("error:"+o.Err, fmt.Sprintf("%s failed: %s", o, o.ErrText))
 		}
 		// a cancelled context yields its error unless a wake raced with it
-		if a.cancelled.Load() && o.Err == "" && a.cancelCall.Load() < o.Call {
+		// (only decidable when the offset stayed at or beyond NextOffset for the whole call - it is
+		// not below the final NextOffset - and no Publish or Close overlapped the call: a relative or
+		// passed offset returns at once whatever the context says, and a wake may win the race)
+		overlapped := false
+		for _, b := range br.actors {
+			if b.op == nil || b == a || (b.kind != "publisher" && b.kind != "closer") {
+				continue
+			}
+			if !br.isDone(b.op) || (b.op.Call < o.Ret && b.op.Ret > o.Call) {
+				overlapped = true
+			}
+		}
+		if a.cancelled.Load() && o.Err == "" && a.cancelCall.Load() < o.Call && o.Off >= 0 && o.Off >= finalNext && !overlapped {
 			return report("cancel:ignored", fmt.Sprintf("%s was invoked with an already cancelled context at/after NextOffset and returned without error", o))
 		}
 	}
